@@ -60,6 +60,7 @@ func runC09(c *core.Ctx) {
 	c09Fanout(c, pkg)
 	c09Boundary(c, pkg)
 	c09Restore(c, pkg, "C09.restore")
+	c09SameObject(c, pkg, "C09.sameobj")
 	c09Ensure(c, pkg)
 	c09Create(c, pkg)
 	c09Table(c)
@@ -466,6 +467,9 @@ func c09Fanout(c *core.Ctx, pkg *packages.Package) {
 		})
 	}
 	if sp := c.P.Pkg("services/alert"); sp != nil {
+		// what a topic lists after a restart is what was loaded for it: the same key-buffer condition as C08.keybuf
+		c.Rule("C09.keybuf", "A1: loadSavedTopicStates re-uses one buffer for the bucket key of every topic: on every path of the walk callback that lets the walk continue (returns nil) the buffer is reset after the key was written — otherwise every topic but the first is restored empty and lists no events at level OK")
+		c08KeyBuf(c, sp, "C09.keybuf")
 		n := ruleMustHold(c, "C09.lockflow", sp, holdSpec{Typ: "Service", Mu: "mu", Fields: map[string]bool{"handlers": true, "closedTopics": true},
 			Why: "the service's handler table and closed-topic marks are written by the handler API and by task stop while Collect reads them from every task's goroutine"})
 		c.Floor("C09.lockflow", "selections of guarded alert Service fields", n, 15)
